@@ -35,6 +35,9 @@ def episode(run, sb, rng, k, rc, samples, names, tag):
     if any(tc._has_window(r, k) for r in w):
         sb.weed("x", w, rng.random() < 0.3, [0, 1000], "no-filter", False, False, False, out="wd")
         sb.load_event("wd")
+    # each of the two boolean weed flags alone (they sit next to each other in the width-dispatched call)
+    sb.weed("x", None, False, [0, 1000], "no-filter", False, True, False, out="wmask")
+    sb.weed("x", None, False, [0, 1000], "no-const", False, False, True, out="wnogap")
     if n >= 2:
         t = e["table"]
         if all(c in (65, 67, 71, 84, 45) for r in t["rows"] for c in r[1]):
@@ -90,6 +93,11 @@ def run(run, tier, seed):
                 rc = rng.random() < 0.6
                 ns = rng.randint(1, 4)
                 samples = gen.related_samples(rng, k, ns, length=rng.randint(2 * k + 5, 3 * k + 20))
+                # a repeat with another middle base in the first sample: an ambiguity code in the table
+                s0 = samples[0][0]
+                if len(s0) >= k and "N" not in s0.upper()[:k]:
+                    h = (k - 1) // 2
+                    samples[0].append(s0[:h] + rng.choice([c for c in "ACGT" if c != s0[h].upper()]) + s0[h + 1:k])
                 episode(run, sb, rng, k, rc, samples, ["p%d_%d_%d" % (rep, k, i) for i in range(ns)], "plain")
                 if k >= 33:
                     episode(run, sb, rng, k, False, fits64_samples(rng, k, 2), ["f%d_%d_%d" % (rep, k, i) for i in range(2)], "fits64")
